@@ -66,6 +66,11 @@ func (a *AzimuthalEquidistant) Reverse(xy geom.XY) geom.XY {
 	φ0r := dtor(a.centerLonLat.Y)
 
 	ρ := sqrt(x*x + y*y)
+	if ρ == 0 {
+		// The formulas below divide by ρ. The center of the projection maps
+		// back to the center.
+		return a.centerLonLat
+	}
 	φr := asin(cos(ρ/R)*sin(φ0r) + (y*sin(ρ/R)*cos(φ0r))/ρ)
 	λr := λ0r + atan2(
 		x*sin(ρ/R),
